@@ -90,7 +90,9 @@ func judgeLeaves(got *Term, want string, extra ...string) (int, string) {
 		return unknown, "not found"
 	}
 	st, why := holds, ""
-	for _, l := range phiLeaves(got) {
+	// a text is the same text as string and as []byte (normText)
+	want = normStr(want)
+	for _, l := range phiLeaves(normText(got)) {
 		if l.String() == want {
 			continue
 		}
@@ -111,15 +113,18 @@ func checkGffReader(c *Ctx, parse *ssa.Function) {
 		c.useFn(g)
 	}
 	ptb := view.tb[parse]
-	lines := `call[strings.Split](conv[string](param[0]), const["\n"])`
-	line := "each(" + lines + ")"
-	// the line being parsed, by role: whatever is split at tabs
+	linesRaw := `call[strings.Split](conv[string](param[0]), const["\n"])`
+	lines := normStr(linesRaw)
+	line := "each(" + linesRaw + ")" // as written in the code: path conditions are matched against it
+	lineN := "each(" + lines + ")"   // representation folded away (normText): field terms are compared with it
+	// the line being parsed, by role: whatever is split at tabs (as a string or as bytes)
 	view.each(func(g *ssa.Function, i ssa.Instruction) {
-		if cl, ok := i.(*ssa.Call); ok && calleeName(cl) == "strings.Split" && view.T(g, cl.Call.Args[1]).isConst(`"\t"`) {
+		if cl, ok := i.(*ssa.Call); ok && (calleeName(cl) == "strings.Split" || calleeName(cl) == "bytes.Split") && normText(view.T(g, cl.Call.Args[1])).isConst(`"\t"`) {
 			line = view.T(g, cl.Call.Args[0]).String()
+			lineN = normText(view.T(g, cl.Call.Args[0])).String()
 		}
 	})
-	fields := `call[strings.Split](` + line + `, const["\t"])`
+	fields := `call[strings.Split](` + lineN + `, const["\t"])`
 	fld := func(k int) string { return fmt.Sprintf("index(%s, const[%d])", fields, k) }
 	af, n := findCall(parse, "(*poly.Sequence).AddFeature")
 	if n != 1 {
@@ -158,7 +163,7 @@ func checkGffReader(c *Ctx, parse *ssa.Function) {
 		if st == unknown {
 			// an alternative that does not come from this column at all: the column's value is overridden on some path
 			own := fld(k)
-			for _, l := range phiLeaves(got) {
+			for _, l := range phiLeaves(normText(got)) {
 				if !strings.Contains(l.String(), own) && l.Op != "zero" && len(opaqueParts(l, vocabOf(append(extra, cl.want)...))) == 0 {
 					st, why = broken, "may hold "+short(l.String())+", which does not come from column "+fmt.Sprint(k+1)+" of the line (clamped or overridden); want "+short(cl.want)
 				}
@@ -175,7 +180,7 @@ func checkGffReader(c *Ctx, parse *ssa.Function) {
 			return
 		}
 		nUpd++
-		k, v := view.T(g, mu.Key), view.T(g, mu.Value)
+		k, v := normText(view.T(g, mu.Key)), normText(view.T(g, mu.Value))
 		// key = split(pair, "=")[0], value = split(pair, "=")[1], pair = each(split(fields[8], ";"))
 		trimmed := ""
 		untrim := func(t *Term) *Term {
